@@ -147,6 +147,24 @@ ArgStrR(a) == IF a = <<>> THEN ""
 ArgStr(a) == IF a = <<>> THEN "" ELSE "(" \o ArgStrR(a) \o ")"
 
 PossibleSeq(n) == Types[n].possibleSeq
+
+(* Type resolver precedence.  C.trs (optional) is the set of registered custom type resolvers:
+     "field"  the `type_resolver` argument of @Resolver on the fields of FieldTR  - answers the value's own type
+     "type"   @TypeResolver on the abstract types of TypeTR                        - answers the LAST possible type
+     "engine" custom_default_type_resolver of the engine                            - answers the FIRST possible type
+   none of them: the built-in resolution (the value names its type: _typename key / attribute / class name).
+   The most specific one registered for the position wins.                                                *)
+FieldTR == {"Query.p", "Query.lp", "Query.np"}
+TypeTR == {"P"}
+TRS(C) == IF "trs" \in DOMAIN C THEN C.trs ELSE {}
+FK(C) == IF "fk" \in DOMAIN C THEN C.fk ELSE ""
+SetFK(C, v) == [x \in DOMAIN C \cup {"fk"} |-> IF x = "fk" THEN v ELSE C[x]]
+EffectiveRT(C, abstractName, tn) ==
+  IF "field" \in TRS(C) /\ FK(C) \in FieldTR THEN tn
+  ELSE IF "type" \in TRS(C) /\ abstractName \in TypeTR THEN PossibleSeq(abstractName)[Len(PossibleSeq(abstractName))]
+  ELSE IF "engine" \in TRS(C) THEN PossibleSeq(abstractName)[1]
+  ELSE tn
+RTOf(C, t, raw) == IF IsAbstract(Named(t)) THEN EffectiveRT(C, Named(t), raw.tn) ELSE raw.tn
 DefaultRT(n, path) ==
   IF ~IsAbstract(n) THEN n
   ELSE IF path[Len(path)] = "#1" /\ Len(PossibleSeq(n)) > 1 THEN PossibleSeq(n)[2] ELSE PossibleSeq(n)[1]
@@ -225,7 +243,7 @@ ExecField(C, rt, entry, path, parentId) ==
   ELSE LET raw  == RawAt(C, fdef.type, me, parentId, fname, args.v)
            call == IF fdef.res = "R" THEN <<[path |-> me, parent |-> parentId, args |-> args.v, ret |-> raw]>> ELSE <<>>
            here == IF fdef.res = "R" THEN {Pos(me, fdef.type)} ELSE {}
-           r    == Complete(C, fdef.type, raw, me, entry[2]) IN
+           r    == Complete(SetFK(C, rt \o "." \o fname), fdef.type, raw, me, entry[2]) IN
        Caught(fdef.type, me, [r EXCEPT !.calls = call \o @, !.pos = here \cup @])
 
 Complete(C, t, raw, path, ids) ==
@@ -243,9 +261,10 @@ Complete(C, t, raw, path, ids) ==
      IF raw.r = "leaf" THEN OkV(raw.v) ELSE FailAt(path, ids)
   ELSE \* composite
      IF raw.r # "obj" THEN FailAt(path, ids)
-     ELSE IF raw.tn \notin DOMAIN Types THEN FailAt(path, ids)
-     ELSE IF KindOf(raw.tn) # "OBJECT" \/ ~TypeApplies(raw.tn, Named(t)) THEN FailAt(path, ids)
-     ELSE ExecSel(C, raw.tn, ids, path, raw.id)
+     ELSE LET tn == RTOf(C, t, raw) IN
+          IF tn \notin DOMAIN Types THEN FailAt(path, ids)
+          ELSE IF KindOf(tn) # "OBJECT" \/ ~TypeApplies(tn, Named(t)) THEN FailAt(path, ids)
+          ELSE ExecSel(C, tn, ids, path, raw.id)
 
 CompleteItems(C, it, items, path, ids, i) ==
   IF i > Len(items) THEN OkV(Lst(<<>>))
